@@ -552,13 +552,18 @@ def case_linear(fam, rep):
                 body2 = fem.SolidBody(fem.LinearElastic(E=float(rng.uniform(1, 3)), nu=float(rng.uniform(0.1, 0.4))), f2, multiplier=float(rng.uniform(0.4, 3)))
                 face = np.arange(mesh.npoints)[np.isclose(mesh.points[:, 0], L[0])]
                 c = m2.npoints - 1
-                mpc = fem.MultiPointConstraint(f2, points=face, centerpoint=c, multiplier=float(rng.uniform(10, 200)))
                 interior = np.arange(mesh.npoints)[~np.any(np.isclose(mesh.points, 0) | np.isclose(mesh.points, L), axis=1)]
                 pl = fem.PointLoad(f2, [int(interior[0])] if len(interior) else [1], values=[list(rng.uniform(-0.02, 0.02, 3))])
                 bd = {"fix": fem.Boundary(f2[0], fx=0.0), "move": fem.Boundary(f2[0], mask=np.arange(m2.npoints) == c, value=rng.uniform(-0.05, 0.05, 3))}
                 d0, d1 = fem.dof.partition(f2, bd)
                 e0 = fem.dof.apply(f2, bd, d0)
-                for with_ext in (True, False):
+                # the constraint ties every combination of axes (the skipped ones stay free on the face: lateral contraction moves
+                # them, the centre point is prescribed completely): no skip, the middle axis alone, one drawn pattern
+                patterns = [(0, 0, 0), (0, 1, 0), (1, 0, 0), (0, 0, 1), (1, 1, 0), (1, 0, 1), (0, 1, 1)]
+                drawn = patterns[2 + int(rng.integers(0, 5))]
+                for with_ext, skip in ((True, (0, 0, 0)), (False, (0, 0, 0)), (True, (0, 1, 0)), (False, drawn)):
+                    mpc = fem.MultiPointConstraint(f2, points=face, centerpoint=c, skip=skip, multiplier=float(rng.uniform(10, 200)))
+                    run.units["linear:mpc-skip=%s" % ("none" if not any(skip) else "middle-axis" if skip == (0, 1, 0) else "drawn")] += 1
                     f2[0].values[:] = 0.01 * rng.standard_normal(f2[0].values.shape)
                     count = [0]
 
@@ -566,12 +571,18 @@ def case_linear(fam, rep):
                         count[0] += 1
                         return spl.spsolve(A, b_)
                     kw = dict(ext0=e0) if with_ext else {}
-                    res3 = fem.newtonrhapson(items=[body2, mpc, pl], dof0=d0, dof1=d1, solver=solver, tol=1e-10, verbose=False, **kw)
+                    try:
+                        res3 = fem.newtonrhapson(items=[body2, mpc, pl], dof0=d0, dof1=d1, solver=solver, tol=1e-10, verbose=False, **kw)
+                    except ValueError as err:
+                        # a well-posed linear problem (clamped face, centre point prescribed) that is not solved at all
+                        run.fail("newton.linear", "clause=linear-problem-one-update[counted]", "a linear problem with scaled / resized item matrices did not "
+                                 "converge after %d linear solves (constraint skip=%s): %s" % (count[0], skip, str(err).strip()[:120]))
+                        continue
                     if count[0] == 1 and res3.iterations == 1:
-                        run.ok("newton.linear", unit="linear:one-solve-counted", config=("linear-counted", fam, with_ext))
+                        run.ok("newton.linear", unit="linear:one-solve-counted", config=("linear-counted", fam, with_ext, skip))
                     else:
                         run.fail("newton.linear", "clause=linear-problem-one-update[counted]", "a linear problem with scaled / resized item matrices took %d linear "
-                                 "solves (%d reported iterations)" % (count[0], res3.iterations))
+                                 "solves (%d reported iterations; constraint skip=%s)" % (count[0], res3.iterations, skip))
             # a direct linear analysis through the partitioned solve, without a residual vector (documented: r is optional) and with a
             # residual, both with moved boundaries: du solves K11 du1 = -(r1 + K10 (ext0 - u0)), du0 = ext0 - u0 (own evaluation)
             fd = problems.field_for(fam, mesh, kind)
@@ -700,7 +711,7 @@ SPEC = {
                        "success:boundary-honoured:field2", "styles:no-ext0", "styles:constraint", "styles:converged-at-maxiter", "styles:parallel+solver",
                        "styles:no-items", "styles:array-newton", "styles:array-newton-raises", "success:continuation", "success:unload-to-zero", "linear:unload-one-iteration", "success:prescribed-values",
                        "success:reported-residual", "success:reassembly", "success:reassembly-settled", "success:fun", "success:commit",
-                       "solve:reduced-system", "solve:prescribed-increment", "linear:one-iteration", "linear:one-solve-counted", "linear:overlapping-boundaries", "solve:direct:without-r", "solve:direct:with-r", "solve:tools.solve", "success:reported-norm", "success:continuation:items-only", "success:continuation:x0=result", "success:continuation:x0=own-container", "failure:maxiter",
+                       "solve:reduced-system", "solve:prescribed-increment", "linear:one-iteration", "linear:one-solve-counted", "linear:mpc-skip=none", "linear:mpc-skip=middle-axis", "linear:mpc-skip=drawn", "linear:overlapping-boundaries", "solve:direct:without-r", "solve:direct:with-r", "solve:tools.solve", "success:reported-norm", "success:continuation:items-only", "success:continuation:x0=result", "success:continuation:x0=own-container", "failure:maxiter",
                        "failure:no-commit", "failure:raises:ValueError", "failure:items=2:SolidBodyForce", "failure:items=2:SolidBody", "failure:items=1:SolidBody",
                        # fourth audit (references of the check itself): requested prescribed unknowns / values, own hex8 residual, own history
                        "requested:sets", "requested:values", "requested:continuation", "requested:tiny-increment", "requested:unload-to-zero", "requested:linear-unload",
